@@ -49,7 +49,7 @@ func main() {
 	known := fs.String("known", "", "comma-separated open known-finding regions")
 	out := fs.String("out", "", "result JSON path")
 	workers := fs.Int("workers", 16, "parallel workers")
-	solver := fs.String("solver", "z3", "z3 | z3-new | cvc5")
+	solver := fs.String("solver", "z3", "z3 | z3-qfbv (z3 with check-sat-using qfbv) | z3-new | cvc5")
 	timeout := fs.Int("solver-timeout-ms", 10000, "per query")
 	maxPaths := fs.Int("max-paths", 200000, "per harness")
 	maxDec := fs.Int("max-decisions", 4000, "per path")
@@ -64,8 +64,10 @@ func main() {
 	runInit := fs.String("run-init", "", "package paths whose explicit init functions run")
 	stopFirst := fs.Bool("stop-on-violation", false, "stop at the first violation")
 	tags := fs.String("tags", "", "build tags")
+	optArith := fs.Bool("opt-arith", false, "enable if-conversion/division narrowing/const-table mux (models_c34/c35)")
 	fs.Parse(os.Args[2:])
 
+	interp.OptArith = *optArith
 	t0 := time.Now()
 	res := &runOutput{Pkg: *pkg, Solver: *solver}
 	fail := func(err error) {
